@@ -83,6 +83,7 @@ type prim struct {
 	e    elem
 	es   []elem
 	kvs  []kv
+	via  byte // PL only: how the left operand is written: 0 y   'i' idf(y) (identity function)   'g' func(){y}() (getter)
 }
 
 func (p prim) enc() string {
@@ -112,6 +113,9 @@ func (p prim) enc() string {
 	case "IS":
 		return fmt.Sprintf("IS,%d,%d,%s", p.x, p.i, p.e.enc())
 	case "PL":
+		if p.via != 0 {
+			return fmt.Sprintf("PL,%d,%d,%s,%c", p.x, p.y, p.e.enc(), p.via)
+		}
 		return fmt.Sprintf("PL,%d,%d,%s", p.x, p.y, p.e.enc())
 	case "RP", "GT":
 		return fmt.Sprintf("%s,%d,%d,%d", p.kind, p.x, p.y, p.i)
@@ -145,6 +149,12 @@ func (p prim) src() string {
 	case "IS":
 		return fmt.Sprintf("%s[%d]=%s", x, p.i, p.e.src())
 	case "PL":
+		switch p.via {
+		case 'i':
+			return x + "=idf(" + y + ")+" + p.e.src()
+		case 'g':
+			return x + "=func(){" + y + "}()+" + p.e.src()
+		}
 		return x + "=" + y + "+" + p.e.src()
 	case "RP":
 		return fmt.Sprintf("%s=%s*%d", x, y, p.i)
@@ -208,6 +218,12 @@ type op struct {
 	form byte
 	wrap string
 	v    *vcall // kind 'V': a = result variable, wrap = where the call is made
+	// kind 'X': ONE source statement (xsrc) whose effect on the machine is the statements xops in a row, on hidden
+	// variables (>= 16: the local array of a closure, the result of a memoized maker) and on xw
+	xsrc  string
+	xops  []op
+	xw    []int
+	xname string
 }
 
 // ---- variadic calls (direct oracle only: the container machine has no variadic functions, the driver prints SKIP for a
@@ -462,6 +478,12 @@ func bodyEnc(b []prim) string {
 }
 func (o op) enc() string {
 	switch o.kind {
+	case 'X':
+		parts := make([]string, len(o.xops))
+		for i, q := range o.xops {
+			parts[i] = q.enc()
+		}
+		return "X:" + o.xname + "." + Hx([]byte(o.xsrc)) + ":" + strings.Join(parts, "&")
 	case 'V':
 		return o.vEnc()
 	case 'P':
@@ -481,6 +503,8 @@ func (o op) src() string {
 		parts[i] = p.src()
 	}
 	switch o.kind {
+	case 'X':
+		return o.xsrc
 	case 'V':
 		return o.vSrc()
 	case 'P':
@@ -505,6 +529,10 @@ func (o op) src() string {
 func (o op) writes() map[int]bool {
 	w := map[int]bool{}
 	switch o.kind {
+	case 'X':
+		for _, v := range o.xw {
+			w[v] = true
+		}
 	case 'V':
 		w[o.a] = true
 		if o.v.ret == 'o' {
@@ -527,6 +555,8 @@ func (o op) writes() map[int]bool {
 }
 func (o op) opName() string {
 	switch o.kind {
+	case 'X':
+		return o.xname
 	case 'V':
 		return "variadic"
 	case 'P':
@@ -584,6 +614,9 @@ func decPrim(s string) prim {
 		p.x, p.i, p.e = atoi(f[1]), atoi64(f[2]), decElem(f[3])
 	case "PL":
 		p.x, p.y, p.e = atoi(f[1]), atoi(f[2]), decElem(f[3])
+		if len(f) > 4 && f[4] != "" {
+			p.via = f[4][0]
+		}
 	case "RP", "GT":
 		p.x, p.y, p.i = atoi(f[1]), atoi(f[2]), atoi64(f[3])
 	case "SL":
@@ -606,6 +639,21 @@ func decOps(s string) []op {
 		}
 		if k == 'V' {
 			ops = append(ops, decV(rest))
+			continue
+		}
+		if k == 'X' {
+			i := strings.IndexByte(rest, ':')
+			hd := strings.SplitN(rest[:i], ".", 2)
+			o := op{kind: 'X', xname: hd[0], xsrc: string(Unhx(hd[1]))}
+			for _, q := range decOps(strings.ReplaceAll(rest[i+1:], "&", ";")) {
+				o.xops = append(o.xops, q)
+				for v := range q.writes() {
+					if v < nVars {
+						o.xw = append(o.xw, v)
+					}
+				}
+			}
+			ops = append(ops, o)
 			continue
 		}
 		i := strings.IndexByte(rest, ':')
@@ -641,7 +689,10 @@ func newSession() *session {
 	s := eval.NewState()
 	out := &strings.Builder{}
 	s.Out, s.LogOut, s.NoLog = out, out, true
-	return &session{s: s, opts: repl.Options{All: true, ShowEval: true, NoColor: true, NilAndErr: true}}
+	se := &session{s: s, opts: repl.Options{All: true, ShowEval: true, NoColor: true, NilAndErr: true}}
+	se.exec("idf=func(x){x}")       // hands its argument back as is
+	se.exec("mkp=func(n){(0:9)+n}") // pure: its result is memoized, every call with the same n returns the same array
+	return se
 }
 
 // run one statement through repl.EvalOne: ("ok=<inspect>" | "err", panicked)
@@ -726,8 +777,42 @@ func reprName(k byte) string {
 // one sequence = one correspondence case + the direct oracle on every step.
 // The statements come from `next` (given the bindings read back so far), so a generator can aim at the live state;
 // a failure is reported with the prefix of the sequence that ends at the failing statement.
+// The same statement with a call FLATTENED: pp=<arg>; the body statements one by one at top level (stopping at the
+// first error, as the function would); r=pp; del(pp). With containers as values this is what the call does, whatever
+// the nesting of functions the body sits in - so a second session running the flattened form must show the same
+// bindings after every statement (model-free: the implementation against itself in another scope).
+// ok = false: the statement cannot be flattened (a body statement assigns a name that is unbound: a local).
+func (tw *session) execFlat(o op, before [nVars]binding) bool {
+	if o.kind != 'C' {
+		tw.exec(o.src())
+		return true
+	}
+	for _, p := range o.body {
+		if p.kind == "UB" || (p.x != paramVar && (p.x >= nVars || !before[p.x].present)) {
+			tw.exec(o.src())
+			return false
+		}
+	}
+	if res, _, _ := tw.exec("pp=" + vname(o.b)); res != "err" {
+		ok := true
+		for _, p := range o.body {
+			if r, _, _ := tw.exec(p.src()); r == "err" {
+				ok = false
+				break
+			}
+		}
+		if ok {
+			tw.exec(vname(o.a) + "=pp")
+		}
+	}
+	tw.exec("del(pp)")
+	return true
+}
+
 func c06Run(c *wctx, slack int, next func(step int, bs [nVars]binding) (op, bool)) {
 	se := newSession()
+	tw := newSession() // the flattened twin
+	twValid := true
 	prefix := fmt.Sprintf("SEQ F %d ", slack)
 	c.emit("B", prefix)
 	var encs, obs []string
@@ -756,6 +841,20 @@ func c06Run(c *wctx, slack int, next func(step int, bs [nVars]binding) (op, bool
 			c.Fail("harness-unparsable-statement", line, fmt.Sprintf("step %d %q: %v", idx, o.src(), errs))
 		}
 		after := se.read()
+		if twValid {
+			twValid = tw.execFlat(o, before)
+			if twValid {
+				flat := tw.read()
+				for v := 0; v < nVars; v++ {
+					if flat[v].present != after[v].present || flat[v].text != after[v].text {
+						c.Fail("infunction-differs-"+reprName(after[v].kind)+"-"+o.opName(), line,
+							fmt.Sprintf("step %d %q: %s is %s, the same statements at top level give %s", idx, o.src(), vname(v), after[v].text, flat[v].text))
+						twValid = false // report the first divergence only
+						break
+					}
+				}
+			}
+		}
 		for v := 0; v < nVars; v++ {
 			if after[v].present && strings.HasPrefix(after[v].text, "<INSPECT PANIC") {
 				c.Fail("corrupt-value-"+o.opName(), line, fmt.Sprintf("step %d %q: %s holds a nil object: %s", idx, o.src(), vname(v), after[v].text))
@@ -823,6 +922,9 @@ func c06Run(c *wctx, slack int, next func(step int, bs [nVars]binding) (op, bool
 		} else {
 			c.Count("outcome=ok")
 		}
+		if o.kind == 'X' && strings.HasPrefix(res, "ok=") {
+			res = "ok" // the value of such a statement (a function text, ...) is not part of the observation
+		}
 		obs = append(obs, strings.TrimSpace(res+" "+obsBindings(after)))
 		before = after
 		tooBig := false
@@ -880,7 +982,64 @@ func P(kind string, x, y int, i, j int64, e elem) op {
 func I(n int64) elem { return elem{n: n} }
 func V(v int) elem   { return elem{isVar: true, n: int64(v)} }
 
+// c<slot> = a closure over a LOCAL array of n zeros that increments element 0 and returns the array
+func mkCounter(slot, n int) op {
+	zs := make([]string, n)
+	for i := range zs {
+		zs[i] = "0"
+	}
+	es := make([]elem, n)
+	return op{kind: 'X', xname: "closure", xsrc: fmt.Sprintf("c%d=func(){st=[%s];()=>{st[0]=st[0]+1;st}}()", slot, strings.Join(zs, ",")),
+		xops: []op{{kind: 'P', p: prim{kind: "AL", x: 20 + slot, es: es}}}}
+}
+
+// v<x> = c<slot>()
+func callCounter(x, slot int) op {
+	return op{kind: 'X', xname: "closurecall", xsrc: fmt.Sprintf("%s=c%d()", vname(x), slot), xw: []int{x},
+		xops: []op{{kind: 'P', p: prim{kind: "IN", x: 20 + slot, i: 0}}, {kind: 'P', p: prim{kind: "CP", x: x, y: 20 + slot}}}}
+}
+
+// v<x> = mkp(n)+e : the left operand is the memoized result of a pure function ([0..8,n], with spare capacity)
+func memoPlus(x int, n int64, e elem) op {
+	es := append(ints(0, 9), I(n))
+	return op{kind: 'X', xname: "memoplus", xsrc: fmt.Sprintf("%s=mkp(%d)+%s", vname(x), n, e.src()), xw: []int{x},
+		xops: []op{{kind: 'P', p: prim{kind: "AL", x: 22, es: es}}, {kind: 'P', p: prim{kind: "PL", x: x, y: 22, e: e}}}}
+}
+func plusVia(x, y int, e elem, via byte) op {
+	return op{kind: 'P', p: prim{kind: "PL", x: x, y: y, e: e, via: via}}
+}
+func bodyCall(r, y int, wrap string, body ...prim) op {
+	return op{kind: 'C', a: r, b: y, form: 'f', wrap: wrap, body: body}
+}
+
 func corpus() [][]op {
+	base := corpusBase()
+	// write / copy / write INSIDE one function on OUTER variables; closures over a local array called twice
+	for _, n := range []int{3, 8, 9, 12} {
+		for _, wrap := range []string{"", "f", "l", "fo"} {
+			base = append(base, []op{arrLit(0, n), arrLit(1, 1), arrLit(2, 2),
+				bodyCall(3, 2, wrap, prim{kind: "IS", x: 0, i: 0, e: I(100)}, prim{kind: "CP", x: 1, y: 0}, prim{kind: "IS", x: 0, i: 1, e: I(200)}),
+				bodyCall(3, 0, wrap, prim{kind: "IS", x: paramVar, i: 0, e: I(7)}, prim{kind: "CP", x: 1, y: paramVar}, prim{kind: "IS", x: paramVar, i: 1, e: I(8)},
+					prim{kind: "IS", x: 0, i: 2, e: I(9)}, prim{kind: "CP", x: 2, y: 0}, prim{kind: "IS", x: 0, i: -1, e: I(10)}),
+				bodyCall(4, 0, wrap, prim{kind: "PL", x: 0, y: 0, e: I(5)}, prim{kind: "CP", x: 1, y: 0}, prim{kind: "IS", x: 0, i: 0, e: I(1)}, prim{kind: "IN", x: 0, i: 1})})
+		}
+		base = append(base, []op{mkCounter(0, n), callCounter(0, 0), callCounter(1, 0), mkCounter(1, n), callCounter(2, 1), callCounter(3, 0),
+			P("IS", 0, 0, 1, 0, I(55)), callCounter(4, 0), callCounter(5, 1)})
+	}
+	// + whose left operand is a CALL returning a shared array (identity, getter, memoized maker), twice from one source
+	for _, n := range []int{3, 8, 9, 12} {
+		for _, via := range []byte{'i', 'g'} {
+			base = append(base, []op{arrLit(0, n), P("PL", 1, 0, 0, 0, I(9)), arrLit(5, 1),
+				plusVia(2, 1, V(5), via), plusVia(3, 1, V(5), via), plusVia(4, 1, I(60), via), plusVia(6, 1, I(70), via),
+				P("IS", 2, 0, -1, 0, I(0)), plusVia(7, 2, I(1), via)})
+		}
+	}
+	base = append(base, []op{arrLit(5, 1), memoPlus(0, 1, V(5)), memoPlus(1, 1, V(5)), memoPlus(2, 1, I(6)), memoPlus(3, 2, I(7)), memoPlus(4, 1, I(8)),
+		P("IS", 0, 0, 0, 0, I(99)), memoPlus(6, 1, I(9))})
+	return base
+}
+
+func corpusBase() [][]op {
 	return [][]op{
 		// a=[1..10];b=a;b[0]=99;a[0]
 		{arrLit(0, 10), P("CP", 1, 0, 0, 0, elem{}), P("IS", 1, 0, 0, 0, I(99)), P("GT", 2, 0, 0, 0, elem{})},
@@ -1055,7 +1214,11 @@ func (g *genState) randPrim(c *wctx, inFn bool, extra []int) prim {
 							e = V(z)
 						}
 					}
-					return prim{kind: "PL", x: x, y: y, e: e}
+					p := prim{kind: "PL", x: x, y: y, e: e}
+					if !inFn && c.R.Pct(35) {
+						p.via = []byte{'i', 'g'}[c.R.Intn(2)]
+					}
+					return p
 				}
 			}
 		case k < 66:
@@ -1179,6 +1342,37 @@ func (g *genState) randOp(c *wctx) op {
 			}
 			return o
 		}
+	case k < 28: // write / copy / write on OUTER variables (or the parameter) within one call
+		if x, ok := g.pick(c, isCont); ok {
+			if z, ok := g.pick(c, anyB); ok && z != x {
+				o := op{kind: 'C', a: c.R.Intn(nVars), b: x}
+				o.form, o.wrap = randWrap(c)
+				t := x
+				if c.R.Pct(35) {
+					t = paramVar
+				}
+				b := g.bs[x]
+				o.body = []prim{{kind: "IS", x: t, i: g.randIndex(c, b), e: I(int64(100 + c.R.Intn(50)))}, {kind: "CP", x: z, y: t},
+					{kind: "IS", x: t, i: g.randIndex(c, b), e: I(int64(200 + c.R.Intn(50)))}}
+				if c.R.Pct(40) {
+					o.body = append(o.body, prim{kind: "CP", x: c.R.Intn(nVars), y: t}, prim{kind: "IN", x: t, i: g.randIndex(c, b)})
+				}
+				for _, p := range o.body { // only names that exist (a new name would be a local of the function)
+					if p.x != paramVar && !g.bs[p.x].present {
+						return op{kind: 'P', p: g.randPrim(c, false, nil)}
+					}
+				}
+				return o
+			}
+		}
+	case k < 32:
+		slot := c.R.Intn(2)
+		if c.R.Pct(30) {
+			return mkCounter(slot, arrSizes[c.R.Intn(len(arrSizes))]%13+1)
+		}
+		return callCounter(c.R.Intn(nVars), slot)
+	case k < 35:
+		return memoPlus(c.R.Intn(nVars), int64(c.R.Intn(3)), g.randElem(c, true))
 	}
 	return op{kind: 'P', p: g.randPrim(c, false, nil)}
 }
